@@ -277,6 +277,29 @@ Section Sound.
 
   (* ------------------------------------------------------- expressions of the target *)
 
+  Definition td_ok (td : list (string * bool * etype)) : Prop :=
+    Forall (fun x => ~ is_input (fst (fst x))) td.
+
+  (** the target program consists of bodies built by [cline] whose deletions never name an
+      input (true of [compile alg], see DSL/CompileProps.v) *)
+  Hypothesis Hprog : forall x d, kind_of alg inputs x = KSeries d ->
+      exists td, td_ok td /\ find_body x prog = Some (flat_map (cline (sname d) td) (sbody d)).
+
+  (** validity of the Hermitian shortcuts, in the sense of the specification: for a product
+      declared [hermitian], (low) a lower-triangle element is the adjoint of (anything equal
+      to) the transposed one, (diag) on diagonal blocks of a two-factor product the half-sum of
+      product_by_order equals the full sum.  DSL/HermValid.v derives both from "the second
+      factor is the adjoint series of the first". *)
+  Hypothesis Hlow : forall s p i j n,
+      kind_of alg inputs s = KProduct p -> pherm p = true -> j < i ->
+      forall x : V, (forall fu' w', spec fu' (KN s) (j, i, n) = Some w' -> x == w') ->
+      forall fu w, spec fu (KN s) (i, j, n) = Some w -> vadj O x == w.
+  Hypothesis Hdiag : forall s p i n fu w,
+      kind_of alg inputs s = KProduct p -> pherm p = true -> length (pfactors p) = 2 ->
+      iprod_gen O SW (spec fu) (i, i, n) false (first_key p 2) (second_key p 2) = Some w ->
+      forall fu' w', iprod_gen O SW (spec fu') (i, i, n) true (first_key p 2) (second_key p 2) = Some w' ->
+                     w' == w.
+
   Definition getter_ok (g : getter V) : Prop :=
     forall tb k ix, mok (idx_n ix) (g tb k ix) (fun v => agrees v k ix).
 
@@ -419,9 +442,6 @@ Section Sound.
     Qed.
 
     (* ------------------------------------------------------------ statements *)
-
-    Definition td_ok (td : list (string * bool * etype)) : Prop :=
-      Forall (fun x => ~ is_input (fst (fst x))) td.
 
     Lemma td_ok_dels td et : td_ok td -> Forall (fun s => match s with TDel x _ => ~ is_input x | _ => True end) (dels td et).
     Proof.
@@ -742,8 +762,10 @@ Section Sound.
               eapply (inv_done I); eauto.
             - match type of C with context [st_lookup s ?kk] => destruct (st_lookup s kk) as [[|[| |]]|] eqn:Lk end; try discriminate C.
               eapply (inv_done I); eauto. }
-          eapply (mok_weaken (IH acc) (SKIP K)); eauto.
-        + revert stack s r0 s' I E NO.
+          assert (MW : mok (idx_n idx) (pbo_loop O W rec tb k1 k2 half idx r acc) (loop_post half idx k1 k2 ((mid, m1) :: r) acc))
+            by (eapply mok_weaken; [apply IH | apply SKIP; exact K]).
+          eapply MW; eauto.
+        + clear C. revert stack s r0 s' I E NO.
           change (mok (idx_n idx)
                     (if Nat.leb (cost m1) (cost m2)
                      then bind (rec tb k1 i1) (fun a => if is_zero a then pbo_loop O W rec tb k1 k2 half idx r acc else
@@ -760,18 +782,430 @@ Section Sound.
           destruct (Nat.leb (cost m1) (cost m2)).
           * eapply mok_bind; [eapply mok_mono; [exact N1 | apply Hrec]|]. intros a Ha.
             destruct (is_zero a) eqn:Za.
-            { eapply mok_weaken; [apply IH|]. apply SKIP. left. eauto. }
+            { eapply mok_weaken; [apply IH|]. apply SKIP. left. eapply SKIPA; [exact Ha | exact Za]. }
             eapply mok_bind; [eapply mok_mono; [exact N2 | apply Hrec]|]. intros b Hb.
             destruct (is_zero b) eqn:Zb.
-            { eapply mok_weaken; [apply IH|]. apply SKIP. right. eauto. }
+            { eapply mok_weaken; [apply IH|]. apply SKIP. right. eapply SKIPB; [exact Hb | exact Zb]. }
             now apply FULL.
           * eapply mok_bind; [eapply mok_mono; [exact N2 | apply Hrec]|]. intros b Hb.
             destruct (is_zero b) eqn:Zb.
-            { eapply mok_weaken; [apply IH|]. apply SKIP. right. eauto. }
+            { eapply mok_weaken; [apply IH|]. apply SKIP. right. eapply SKIPB; [exact Hb | exact Zb]. }
             eapply mok_bind; [eapply mok_mono; [exact N1 | apply Hrec]|]. intros a Ha.
             destruct (is_zero a) eqn:Za.
-            { eapply mok_weaken; [apply IH|]. apply SKIP. left. eauto. }
+            { eapply mok_weaken; [apply IH|]. apply SKIP. left. eapply SKIPA; [exact Ha | exact Za]. }
             now apply FULL.
     Qed.
+
+    (* -------------------------------------------------------------- eval of each object *)
+
+    Lemma splits_ok n m : In m (splits n) -> ole m n /\ ole (lsub n m) n.
+    Proof.
+      revert m. induction n as [|x r IH]; cbn [splits]; intros m H.
+      - destruct H as [<-|[]]. cbn. auto.
+      - apply in_flat_map in H. destruct H as (a & Ha & Hm). apply in_map_iff in Hm.
+        destruct Hm as (m' & <- & Hm'). apply in_seq in Ha. destruct (IH _ Hm') as [H1 H2].
+        cbn. repeat split; auto; lia.
+    Qed.
+
+    Lemma pbo_space_ok nb n : Forall (pair_ok n) (pbo_space nb n).
+    Proof.
+      apply Forall_forall. intros [mid m] H. unfold pbo_space in H.
+      apply in_flat_map in H. destruct H as (mid' & _ & H). apply in_map_iff in H.
+      destruct H as (m' & E & Hm). inversion E; subst. unfold pair_ok. cbn [snd]. now apply splits_ok.
+    Qed.
+
+    Lemma half_defined sub idx k1 k2 l racc racc' w :
+      iprod_loop O sub idx false k1 k2 l racc = Some w ->
+      exists w', iprod_loop O sub idx true k1 k2 l racc' = Some w'.
+    Proof.
+      revert racc racc'. induction l as [|[mid m1] r IH]; intros racc racc' E; cbn [iprod_loop] in *.
+      - eauto.
+      - cbn [andb] in E.
+        destruct (true && lex_gt m1 (lsub (idx_n idx) m1)).
+        + destruct (lazy_term O _ _ _) as [[t|]|]; try discriminate; eauto.
+        + destruct (lazy_term O _ _ _) as [[t|]|]; try discriminate; [|eauto].
+          destruct (true && negb (lnat_eqb m1 (lsub (idx_n idx) m1))); eauto.
+    Qed.
+
+    Lemma spec_start_none d idx : start_sval W d idx = None -> spec_start O SW d idx = None.
+    Proof.
+      unfold start_sval, spec_start.
+      change (is_start_index SW idx) with (x_start_index W idx).
+      destruct (x_start_index W idx); auto. cbn [sw_inputs SW].
+      destruct (sstart d); auto; try discriminate.
+      - destruct (Nat.eqb (idx_i idx) (idx_j idx)); auto; discriminate.
+      - destruct (mem_string s inputs); auto; discriminate.
+    Qed.
+
+    Lemma pbo_ok tb k1 k2 half idx :
+      mok (idx_n idx) (pbo O W rec tb k1 k2 half idx)
+          (fun v => forall fu w, iprod_gen O SW (spec fu) idx half k1 k2 = Some w -> den O v == w).
+    Proof.
+      pose proof (vl_equiv L) as EQ.
+      unfold pbo. eapply mok_weaken; [apply pbo_loop_ok, pbo_space_ok|].
+      intros v Hv fu w E. unfold iprod_gen in E. cbn [sw_nb SW] in E.
+      apply (Hv fu (v0 O) w); [reflexivity | exact E].
+    Qed.
+
+    Lemma eval_of_ok tb k idx :
+      (forall x d, tb = TTab -> k = KN x -> kind_of alg inputs x = KSeries d -> start_sval W d idx = None) ->
+      (forall x, tb = TTab -> k = KN x -> kind_of alg inputs x <> KInput) ->
+      mok (idx_n idx) (eval_of O alg prog W rec tb k idx) (fun v => agrees v k idx).
+    Proof.
+      pose proof (vl_equiv L) as EQ.
+      intros Hst Hni. destruct k as [x|pn k']; cbn [eval_of].
+      - destruct (kind_of alg inputs x) as [|d|p|] eqn:K.
+        + destruct tb; [exfalso; eapply Hni; eauto | apply Hrec].
+        + destruct tb; [|apply Hrec].
+          unfold series_eval. destruct (@Hprog _ _ K) as (td & Htd & Fb). rewrite Fb.
+          eapply mok_weaken; [apply lines_ok; exact Htd|].
+          intros v Hv f w E. destruct f as [|fu]; [discriminate|]. cbn [interp] in E.
+          unfold rhs in E. cbn [sw_inputs SW] in E. rewrite K in E.
+          rewrite (spec_start_none _ _ (Hst _ _ eq_refl eq_refl K)) in E.
+          apply (Hv fu (v0 O) w); [reflexivity | exact E].
+        + destruct (Nat.leb 2 (length (pfactors p))) eqn:M; [|apply mok_raise].
+          destruct (pherm p && Nat.ltb (idx_j idx) (idx_i idx)) eqn:HL.
+          * apply andb_true_iff in HL. destruct HL as [HP HL]. apply Nat.ltb_lt in HL.
+            eapply mok_bind.
+            { eapply mok_mono; [|apply Hrec]. rewrite idx_n_transp. apply ole_refl. }
+            intros v Hv. apply mok_lift. intros z Ez f w E.
+            destruct idx as [[i j] n]. cbn [idx_i idx_j] in HL.
+            rewrite (den_sdagger L _ Ez).
+            eapply (@Hlow x p i j n K HP HL (den O v)); [|exact E].
+            intros fu' w' E'. exact (Hv _ _ E').
+          * destruct (pherm p && Nat.eqb (length (pfactors p)) 2 && Nat.eqb (idx_i idx) (idx_j idx)) eqn:HD.
+            -- apply andb_true_iff in HD. destruct HD as [HD HI]. apply andb_true_iff in HD.
+               destruct HD as [HP H2]. apply Nat.eqb_eq in H2. apply Nat.eqb_eq in HI.
+               eapply mok_weaken; [apply pbo_ok|]. intros v Hv f w E.
+               destruct f as [|fu]; [discriminate|]. cbn [interp] in E.
+               unfold rhs in E. cbn [sw_inputs SW] in E. rewrite K, M in E. unfold iprod in E.
+               destruct idx as [[i j] n]. cbn [idx_i idx_j fst snd] in HI. cbn in HI. subst j. rewrite H2 in *.
+               assert (exists w', iprod_gen O SW (spec fu) (i, i, n) true (first_key p 2) (second_key p 2) = Some w') as (w' & E').
+               { unfold iprod_gen in *. eapply half_defined; eauto. }
+               rewrite (Hv _ _ E'). eapply Hdiag; eauto.
+            -- eapply mok_weaken; [apply pbo_ok|]. intros v Hv f w E.
+               destruct f as [|fu]; [discriminate|]. cbn [interp] in E.
+               unfold rhs in E. cbn [sw_inputs SW] in E. rewrite K, M in E. unfold iprod in E. eauto.
+        + apply mok_raise.
+      - destruct (find_pdef pn (aproducts alg)) as [p|] eqn:F; [|apply mok_raise].
+        destruct (Nat.leb 2 k' && Nat.ltb k' (length (pfactors p))) eqn:B; [|apply mok_raise].
+        eapply mok_weaken; [apply pbo_ok|]. intros v Hv f w E.
+        destruct f as [|fu]; [discriminate|]. cbn [interp] in E. unfold rhs in E. rewrite F, B in E.
+        unfold iprod in E. eauto.
+    Qed.
   End WithRec.
+
+  (* ------------------------------------------------------------- __getitem__ *)
+
+  Lemma st_lookup_store_eq (s : st) ck e : st_lookup (st_store s ck e) ck = Some e.
+  Proof. unfold st_lookup, st_store. cbn [cache]. apply lookup_cons_eq. Qed.
+
+  Lemma st_lookup_store_neq (s : st) ck ck' e : ck <> ck' -> st_lookup (st_store s ck e) ck' = st_lookup s ck'.
+  Proof. unfold st_lookup, st_store. cbn [cache]. apply lookup_cons_neq. Qed.
+
+  Lemma st_lookup_remove_some (s : st) ck ck' e :
+    st_lookup (st_remove s ck) ck' = Some e -> ck <> ck' /\ st_lookup s ck' = Some e.
+  Proof. unfold st_lookup, st_remove. cbn [cache]. apply lookup_remove_some. Qed.
+
+  Lemma st_lookup_remove_neq (s : st) ck ck' : ck <> ck' -> st_lookup (st_remove s ck) ck' = st_lookup s ck'.
+  Proof. unfold st_lookup, st_remove. cbn [cache]. apply lookup_remove_neq. Qed.
+
+  Lemma ckey_dec (a b : ckey) : a = b \/ a <> b.
+  Proof. destruct (ckey_eqb a b) eqn:E; [left; now apply ckey_eqb_eq | right; now apply ckey_eqb_neq]. Qed.
+
+  Definition not_start (ck : ckey) : Prop :=
+    forall x d ix sv, ck = (TTab, KN x, ix) -> kind_of alg inputs x = KSeries d ->
+                      start_sval W d ix = Some sv -> False.
+
+  Lemma miss_not_start stack (s : st) ck : Inv stack s -> st_lookup s ck = None -> not_start ck.
+  Proof.
+    intros I N x d ix sv -> K S. rewrite (inv_start I _ _ K S) in N. discriminate.
+  Qed.
+
+  (** pushing a frame *)
+  Lemma Inv_push stack (s : st) ck :
+    Inv stack s -> st_lookup s ck = None -> Inv (ck :: stack) (st_store s ck Pending).
+  Proof.
+    intros I N. pose proof (@miss_not_start _ _ _ I N) as NS. destruct I as [I1 I2 I3 I4]. split.
+    - intros tb k ix v H. destruct (ckey_dec ck (tb, k, ix)) as [E0|D].
+      + subst ck. rewrite st_lookup_store_eq in H. discriminate.
+      + rewrite st_lookup_store_neq in H by auto. eauto.
+    - intros ck' H. destruct (ckey_dec ck ck') as [<-|D]; [now left|].
+      rewrite st_lookup_store_neq in H by auto. right. auto.
+    - intros x d ix sv K S. destruct (ckey_dec ck (TTab, KN x, ix)) as [->|D].
+      + exfalso. eapply NS; eauto.
+      + rewrite st_lookup_store_neq by auto. eauto.
+    - intros nf. destruct (I4 nf) as [ND HI]. cbn [log st_store]. split; auto.
+      intros x ix H. destruct (HI _ _ H) as [Hx Hl]. split; auto.
+      destruct (ckey_dec ck (TTab, KN x, ix)) as [<-|D].
+      + rewrite st_lookup_store_eq. discriminate.
+      + now rewrite st_lookup_store_neq by auto.
+  Qed.
+
+  (** popping it with a value *)
+  Lemma Inv_pop_done stack (s : st) tb k ix v :
+    Inv ((tb, k, ix) :: stack) s -> not_start (tb, k, ix) -> agrees v k ix ->
+    Inv stack (st_store s (tb, k, ix) (Done v)).
+  Proof.
+    intros [I1 I2 I3 I4] NS A. set (ck := (tb, k, ix)) in *. split.
+    - intros tb' k' ix' v' H. destruct (ckey_dec ck (tb', k', ix')) as [D|D].
+      + rewrite <- D in H. rewrite st_lookup_store_eq in H. inversion H; subst. inversion D; subst. exact A.
+      + rewrite st_lookup_store_neq in H by auto. eauto.
+    - intros ck' H. destruct (ckey_dec ck ck') as [<-|D].
+      + rewrite st_lookup_store_eq in H. discriminate.
+      + rewrite st_lookup_store_neq in H by auto. destruct (I2 _ H) as [E|E]; [congruence | exact E].
+    - intros x d ix' sv K S. destruct (ckey_dec ck (TTab, KN x, ix')) as [D|D].
+      + exfalso. eapply NS; eauto.
+      + rewrite st_lookup_store_neq by auto. eauto.
+    - intros nf. destruct (I4 nf) as [ND HI]. cbn [log st_store]. split; auto.
+      intros x ix' H. destruct (HI _ _ H) as [Hx Hl]. split; auto.
+      destruct (ckey_dec ck (TTab, KN x, ix')) as [<-|D].
+      + rewrite st_lookup_store_eq. discriminate.
+      + now rewrite st_lookup_store_neq by auto.
+  Qed.
+
+  (** popping it with an exception *)
+  Lemma Inv_pop_raise stack (s : st) ck :
+    Inv (ck :: stack) s -> not_start ck ->
+    (NF -> forall x ix, In (EvInput x ix) (log s) -> ck <> (TTab, KN x, ix)) ->
+    Inv stack (st_remove s ck).
+  Proof.
+    intros [I1 I2 I3 I4] NS NE. split.
+    - intros tb' k' ix' v' H. apply st_lookup_remove_some in H. destruct H. eauto.
+    - intros ck' H. apply st_lookup_remove_some in H. destruct H as [D H].
+      destruct (I2 _ H) as [E|E]; [congruence | exact E].
+    - intros x d ix' sv K S. rewrite st_lookup_remove_neq; [eauto|].
+      intros D. eapply NS; eauto.
+    - intros nf. destruct (I4 nf) as [ND HI]. cbn [log st_remove]. split; auto.
+      intros x ix' H. destruct (HI _ _ H) as [Hx Hl]. split; auto.
+      rewrite st_lookup_remove_neq; [auto|]. now apply NE.
+  Qed.
+
+  Lemma ext_frame n (s s2 s' : st) ck :
+    st_lookup s ck = None -> ext n (st_store s ck Pending) s2 ->
+    (exists e, s' = st_store s2 ck e) \/ s' = st_remove s2 ck ->
+    ext n s s'.
+  Proof.
+    intros N ((l & El & Fl) & C & P) Hs'.
+    assert (log s' = log s2 /\ calls s' = calls s2 /\
+            forall ck', ck' <> ck -> st_lookup s' ck' = st_lookup s2 ck') as (E1 & E2 & E3).
+    { destruct Hs' as [[e ->]| ->]; cbn [log calls st_store st_remove]; repeat split; auto; intros ck' D.
+      - apply st_lookup_store_neq. congruence.
+      - apply st_lookup_remove_neq. congruence. }
+    split; [exists l; rewrite E1, El; split; auto|]. split; [rewrite E2; cbn in C; exact C|].
+    intros x ix v Hx H. assert (D : (TTab, KN x, ix) <> ck) by (intros F; rewrite F, N in H; discriminate).
+    rewrite E3 by exact D. apply P; auto. rewrite st_lookup_store_neq by congruence. exact H.
+  Qed.
+
+  Lemma getitem_step_ok rec : getter_ok rec -> getter_ok (getitem_step O alg prog W rec).
+  Proof.
+    pose proof (vl_equiv L) as EQ.
+    intros Hrec tb k ix stack s r s' I E NO. unfold getitem_step in E.
+    destruct (st_lookup s (tb, k, ix)) as [[|v]|] eqn:Lk.
+    - inversion E; subst. split; [exact I | split; [apply ext_refl | intros; discriminate]].
+    - inversion E; subst. split; [exact I | split; [apply ext_refl|]].
+      intros a Ea. inversion Ea; subst. eapply (inv_done I); eauto.
+    - pose proof (@Inv_push _ _ _ I Lk) as I1. pose proof (@miss_not_start _ _ _ I Lk) as NS.
+      set (ck := (tb, k, ix)) in *. set (s1 := st_store s ck Pending) in *.
+      (* is this the evaluation of an input element by the user's eval? *)
+      assert (CASES : (exists x, tb = TTab /\ k = KN x /\ is_input x) \/
+                      (forall x, tb = TTab -> k = KN x -> kind_of alg inputs x <> KInput)).
+      { destruct tb; [|right; intros; discriminate]. destruct k as [x|]; [|right; intros; discriminate].
+        destruct (kind_of alg inputs x) eqn:K; try (right; intros y _ Ey; inversion Ey; subst; rewrite K; discriminate).
+        left. eauto. }
+      destruct CASES as [(x & -> & -> & Hx)|Hni].
+      + (* input element: user callback *)
+        cbn [eval_of] in E. unfold is_input in Hx. rewrite Hx in E. unfold bind, tick, ret in E.
+        set (s2 := {| cache := cache s1; calls := S (calls s1); log := EvInput x ix :: log s1 |}) in *.
+        assert (X12 : ext (idx_n ix) s1 s2).
+        { split; [exists [EvInput x ix]; split; auto; constructor; auto; apply ole_refl|].
+          split; [cbn; lia | auto]. }
+        assert (I2 : (NF -> xw_fault W (calls s1) = None) -> Inv (ck :: stack) s2).
+        { intros Hnf. destruct I1 as [J1 J2 J3 J4]. split; auto.
+          intros nf. destruct (J4 nf) as [ND HI]. cbn [log s2].
+          cbn [input_evs]. split.
+          - constructor; auto. intros Hin. apply in_input_evs in Hin.
+            destruct (inv_once I nf) as [_ HI0]. destruct (HI0 _ _ Hin) as [_ Hl]. contradiction.
+          - intros y iy [Hy|Hy].
+            + inversion Hy; subst. split; [exact Hx|]. unfold s1. fold ck.
+              unfold st_lookup in *. cbn [cache s2]. change (lookup (cache s1) ck <> None).
+              unfold s1. rewrite (st_lookup_store_eq s ck Pending : lookup (cache (st_store s ck Pending)) ck = _). discriminate.
+            + apply HI. exact Hy. }
+        destruct (xw_fault W (calls s1)) as [e|] eqn:F.
+        * inversion E; subst. clear E. split; [|split; [|intros; discriminate]].
+          -- apply Inv_pop_raise; auto.
+             ++ destruct I1 as [J1 J2 J3 J4]. split; auto. intros nf. rewrite nf in F. discriminate.
+             ++ intros nf. rewrite nf in F. discriminate.
+          -- eapply ext_frame; [exact Lk | exact X12 | right; reflexivity].
+        * inversion E; subst. clear E. split; [|split].
+          -- apply Inv_pop_done; auto.
+             intros f w Ef. destruct f as [|fu]; [discriminate|]. cbn [interp] in Ef. unfold rhs in Ef.
+             cbn [sw_inputs SW] in Ef. rewrite Hx in Ef. inversion Ef; subst. reflexivity.
+          -- eapply ext_frame; [exact Lk | exact X12 | left; eauto].
+          -- intros a Ea. inversion Ea; subst.
+             intros f w Ef. destruct f as [|fu]; [discriminate|]. cbn [interp] in Ef. unfold rhs in Ef.
+             cbn [sw_inputs SW] in Ef. rewrite Hx in Ef. inversion Ef; subst. reflexivity.
+      + (* every other object *)
+        destruct (eval_of O alg prog W rec tb k ix s1) as [r1 s2] eqn:E1.
+        assert (Hst : forall x d, tb = TTab -> k = KN x -> kind_of alg inputs x = KSeries d -> start_sval W d ix = None).
+        { intros x d -> -> K. destruct (start_sval W d ix) as [sv|] eqn:S; auto. exfalso. exact (NS x d ix sv eq_refl K S). }
+        pose proof (@eval_of_ok rec Hrec tb k ix Hst Hni) as OK.
+        destruct r1 as [v|e|].
+        * inversion E; subst. clear E.
+          destruct (OK _ _ _ _ I1 E1) as (I2 & X2 & P2); [discriminate|].
+          split; [|split].
+          -- apply Inv_pop_done; auto.
+          -- eapply ext_frame; [exact Lk | exact X2 | left; eauto].
+          -- intros a Ea. inversion Ea; subst. auto.
+        * inversion E; subst. clear E.
+          destruct (OK _ _ _ _ I1 E1) as (I2 & X2 & P2); [discriminate|].
+          split; [|split; [|intros; discriminate]].
+          -- apply Inv_pop_raise; auto.
+             intros nf y iy Hy D. destruct (inv_once I2 nf) as [_ HI]. destruct (HI _ _ Hy) as [Hyi _].
+             inversion D; subst. eapply Hni; eauto.
+          -- eapply ext_frame; [exact Lk | exact X2 | right; reflexivity].
+        * inversion E; subst. contradiction.
+  Qed.
+
+  Theorem getitem_ok fuel : getter_ok (getitem O alg prog W fuel).
+  Proof.
+    induction fuel as [|f IH]; cbn [getitem].
+    - intros tb k ix stack s r s' I E NO. inversion E; subst. contradiction.
+    - now apply getitem_step_ok.
+  Qed.
+
+  (* ------------------------------------------------------------- requests of the user *)
+
+  Theorem run_ok fuel (s : st) tb name ix r s' :
+    Inv [] s -> run O alg prog W fuel s (tb, name, ix) = (r, s') -> r <> OutOfFuel ->
+    Inv [] s' /\ ext (idx_n ix) s s' /\ forall v, r = Ok v -> agrees v (KN name) ix.
+  Proof.
+    intros I E NO. unfold run in E. destruct (known alg W name).
+    - eapply getitem_ok; eauto.
+    - inversion E; subst. split; [exact I | split; [apply ext_refl | intros; discriminate]].
+  Qed.
+
+  Definition req_name (r : request) : string := snd (fst r).
+  Definition req_idx (r : request) : index := snd r.
+
+  Theorem run_all_ok fuel rs : forall (s : st) os s',
+    Inv [] s -> run_all O alg prog W fuel s rs = (os, s') -> Forall (fun o => o <> OutOfFuel) os ->
+    Inv [] s' /\
+    Forall2 (fun r o => forall v, o = Ok v -> agrees v (KN (req_name r)) (req_idx r)) rs os.
+  Proof.
+    induction rs as [|[[tb name] ix] rest IH]; intros s os s' I E NO; cbn [run_all] in E.
+    - inversion E; subst. split; auto.
+    - destruct (run O alg prog W fuel s (tb, name, ix)) as [o s1] eqn:E1.
+      destruct (run_all O alg prog W fuel s1 rest) as [os' s2] eqn:E2.
+      inversion E; subst. inversion NO; subst.
+      destruct (@run_ok fuel s tb name ix o s1 I E1) as (I1 & _ & P1); auto.
+      destruct (IH _ _ _ I1 E2) as (I2 & F2); auto.
+  Qed.
+
+  (** no in-flight marker survives a request, whatever its outcome *)
+  Lemma Inv_no_pending (s : st) : Inv [] s -> forall ck, st_lookup s ck <> Some Pending.
+  Proof. intros I ck H. exact (@inv_pend _ _ I _ H). Qed.
+
+  (* ------------------------------------------------------------------ initial state *)
+
+  Lemma lookup_in (c : list (ckey * entry V)) k e : lookup c k = Some e -> In (k, e) c.
+  Proof.
+    induction c as [|[k' e'] r IH]; cbn; [discriminate|].
+    destruct (ckey_eqb k' k) eqn:E.
+    - apply ckey_eqb_eq in E. subst. intros H. inversion H; subst. now left.
+    - intros H. right. auto.
+  Qed.
+
+  Lemma in_lookup (c : list (ckey * entry V)) k e : In (k, e) c -> exists e', lookup c k = Some e'.
+  Proof.
+    induction c as [|[k' e'] r IH]; cbn; [tauto|].
+    intros [H|H].
+    - inversion H; subst. rewrite ckey_eqb_refl. eauto.
+    - destruct (ckey_eqb k' k); eauto.
+  Qed.
+
+  Lemma spec_start_some d ix v : start_sval W d ix = Some v -> spec_start O SW d ix = Some (den O v).
+  Proof.
+    unfold start_sval, spec_start.
+    change (is_start_index SW ix) with (x_start_index W ix).
+    destruct (x_start_index W ix); [|discriminate]. cbn [sw_inputs SW sw_env].
+    destruct (sstart d); try discriminate.
+    - intros E. inversion E; subst. reflexivity.
+    - destruct (Nat.eqb (idx_i ix) (idx_j ix)); [|discriminate]. intros E. inversion E; subst. reflexivity.
+    - destruct (mem_string s inputs); [|discriminate]. intros E. inversion E; subst. reflexivity.
+  Qed.
+
+  Definition init_good (b : ckey * entry V) : Prop :=
+    exists v x ix, b = ((TTab, KN x, ix), Done v) /\
+      ((exists d, kind_of alg inputs x = KSeries d /\ start_sval W d ix = Some v) \/
+       (kind_of alg inputs x = KInput /\ v = xw_env W x ix)).
+
+  Lemma init_entries_good b : In b (init_entries alg W) -> init_good b.
+  Proof.
+    unfold init_entries. intros H. apply in_app_or in H. destruct H as [H|H].
+    - apply in_flat_map in H. destruct H as (x & _ & H).
+      destruct (kind_of alg inputs x) as [|d| |] eqn:K; try contradiction.
+      apply in_flat_map in H. destruct H as (bl & _ & H).
+      destruct (start_sval W d (fst bl, snd bl, zero_order W)) as [v|] eqn:S; [|contradiction].
+      destruct H as [<-|[]]. exists v, x, (fst bl, snd bl, zero_order W). split; auto. left. eauto.
+    - apply in_flat_map in H. destruct H as (x & _ & H).
+      destruct (kind_of alg inputs x) eqn:K; try contradiction.
+      apply in_map_iff in H. destruct H as (bl & <- & _).
+      exists (xw_env W x (fst bl, snd bl, zero_order W)), x, (fst bl, snd bl, zero_order W). split; auto.
+  Qed.
+
+  Lemma find_sdef_in x l d : find_sdef x l = Some d -> In x (map sname l).
+  Proof.
+    induction l as [|d' r IH]; cbn; [discriminate|].
+    destruct (String.eqb (sname d') x) eqn:E; [apply String.eqb_eq in E; auto | auto].
+  Qed.
+
+  Lemma all_zero_repeat n : all_zero n = true -> n = repeat 0 (length n).
+  Proof.
+    induction n as [|x r IH]; cbn; auto. intros H. apply andb_true_iff in H. destruct H as [H1 H2].
+    apply Nat.eqb_eq in H1. subst. f_equal. auto.
+  Qed.
+
+  Lemma start_index_shape ix :
+    x_start_index W ix = true ->
+    ix = (idx_i ix, idx_j ix, zero_order W) /\ In (idx_i ix, idx_j ix) (all_blocks W).
+  Proof.
+    unfold x_start_index. intros H. repeat (apply andb_true_iff in H; destruct H as [H ?]).
+    apply Nat.eqb_eq in H2. apply Nat.ltb_lt in H1, H0. apply all_zero_repeat in H.
+    destruct ix as [[i j] n]. unfold idx_i, idx_j, idx_n in *. cbn [fst snd] in *. split.
+    - unfold zero_order. rewrite <- H2. now rewrite <- H.
+    - unfold all_blocks. apply in_flat_map. exists i. split; [apply in_seq; lia|].
+      apply in_map. apply in_seq. lia.
+  Qed.
+
+  Theorem init_inv calls0 : Inv [] (init_state alg W calls0).
+  Proof.
+    pose proof (vl_equiv L) as EQ.
+    split; unfold st_lookup, init_state; cbn [cache log].
+    - intros tb k ix v H. apply lookup_in, init_entries_good in H.
+      destruct H as (v' & x & ix' & E & [(d & K & S)|(K & ->)]); inversion E; subst.
+      + intros f w Ef. destruct f as [|fu]; [discriminate|]. cbn [interp] in Ef. unfold rhs in Ef.
+        cbn [sw_inputs SW] in Ef. rewrite K, (spec_start_some _ _ S) in Ef. inversion Ef; subst. reflexivity.
+      + intros f w Ef. destruct f as [|fu]; [discriminate|]. cbn [interp] in Ef. unfold rhs in Ef.
+        cbn [sw_inputs SW] in Ef. rewrite K in Ef. inversion Ef; subst. reflexivity.
+    - intros ck H. apply lookup_in, init_entries_good in H.
+      destruct H as (v' & x & ix' & E & _). inversion E.
+    - intros x d ix sv K S.
+      assert (Hin : In ((TTab, KN x, ix), Done sv) (init_entries alg W)).
+      { unfold init_entries. apply in_or_app. left. apply in_flat_map. exists x. split.
+        - unfold kind_of in K. destruct (find_pdef x (aproducts alg)); [discriminate|].
+          destruct (find_sdef x (aseries alg)) eqn:F; [eapply find_sdef_in; eauto|].
+          destruct (mem_string x inputs); discriminate.
+        - rewrite K. assert (SI : x_start_index W ix = true).
+          { unfold start_sval in S. destruct (x_start_index W ix); [auto | discriminate]. }
+          destruct (start_index_shape _ SI) as [Eix Hb].
+          apply in_flat_map. exists (idx_i ix, idx_j ix). split; auto. cbn [fst snd].
+          rewrite <- Eix, S. now left. }
+      destruct (in_lookup _ _ _ Hin) as (e' & Le). rewrite Le.
+      apply lookup_in, init_entries_good in Le.
+      destruct Le as (v' & x' & ix' & E & [(d' & K' & S')|(K' & _)]); inversion E; subst.
+      + rewrite K in K'. inversion K'; subst. rewrite S in S'. inversion S'; subst. reflexivity.
+      + rewrite K in K'. discriminate.
+    - intros _. split; [constructor | intros x ix []].
+  Qed.
 End Sound.
